@@ -251,6 +251,15 @@ def coq_build(targets, timeout=3000):
         t0 = time.time()
         rc, out = sh(['make', '-j%d' % NCPU] + list(targets), cwd=COQ, timeout=timeout)
         log('[coq] make %s -> rc=%d in %.1fs' % (' '.join(targets), rc, time.time() - t0))
+        # a coqc process killed from outside (out-of-memory killer, signal) is not a broken proof: try again with
+        # little parallelism, and if it is killed again report a machinery error, never a violation
+        killed = r'Error 1(37|43)\b|[Kk]illed|[Oo]ut of memory|Cannot allocate memory'
+        if rc != 0 and re.search(killed, out):
+            t0 = time.time()
+            rc, out = sh(['make', '-j3'] + list(targets), cwd=COQ, timeout=timeout)
+            log('[coq] (retry after a killed coqc) make -j3 %s -> rc=%d in %.1fs' % (' '.join(targets), rc, time.time() - t0))
+            if rc != 0 and re.search(killed, out):
+                raise MachineryError('coqc was killed from outside (memory / signal) while building %s:\n%s' % (' '.join(targets), out[-1500:]))
         return rc == 0, out
 
 
